@@ -624,6 +624,9 @@ def id_programs(n, tier):
     g1 = ' | '.join('ID HB:%d' % k for k in range(1, n + 1))
     g2 = ' | '.join('ID HB:%d %s' % (n + k, ' '.join('EXP:%d' % o for o in range(1, n + 1))) for k in range(1, n + 1))
     out.append('P id%d_generations cap=%d hash=%s | %s || %s%s' % (n, n, ','.join(['0'] * (2 * n)), g1, g2, final))
+    # stability: a thread asks again while a client holds a locked (strong) reference to its heartbeat
+    out.append('P id%d_pinned cap=%d hash=0,0 | ID HB:1 BAR:1:2 BAR:2:2 ID EXP:1 ID | BAR:1:2 HBL:1 BAR:2:2 %sHBU:1%s'
+               % (n, n, 'ID ' if n > 1 else '', final))
     return out
 
 
@@ -704,7 +707,7 @@ def check_c15(prop, tier, seed):
 # EpochManager (C04, C16, C17, C20)
 # ------------------------------------------------------------------------------------------------
 EP_FIELDS = ('t', 'ep', 'cur', 'min', 'v', 'haslist', 'pn', 'ecap')
-EP_EVENTS = ('cfg', 'gcall', 'gret', 'relist', 'uaf', 'dcall', 'dret', 'fcall', 'fdone', 'fobs', 'cur', 'min', 'mgrdead',
+EP_EVENTS = ('cfg', 'gcall', 'gret', 'gmove', 'relist', 'uaf', 'dcall', 'dret', 'fcall', 'fdone', 'fobs', 'cur', 'min', 'mgrdead',
              'tend', 'texit')
 
 
@@ -799,7 +802,9 @@ def epoch_programs(tier, which):
                  ep_prog('ep_pin_c', 3, ['G D G D', 'G D', 'F F F F'], hashes=[0, 0, 0]),
                  # guard creation stalled across forwards, then held while further forwards run
                  ep_prog('ep_pin_d', 3, ['G CUR BAR:1:2 D', 'F F F BAR:1:2 F']),
-                 ep_prog('ep_pin_e', 3, ['G BAR:1:3 D', 'G BAR:1:3 D', 'F F BAR:1:3 F'])]
+                 ep_prog('ep_pin_e', 3, ['G BAR:1:3 D', 'G BAR:1:3 D', 'F F BAR:1:3 F']),
+                 # a guard that is moved (move construction + move assignment) keeps its pin
+                 ep_prog('ep_pin_mv', 3, ['G MV CUR D', 'GL MV RL D', 'F F F'])]
         plan.append((3, progs, dict(pb=2 if q else 3, max_exec=5000 if q else 60000)))
         # ID reuse: two workers compete for the single worker slot of a capacity-2 manager
         progs = [ep_prog('ep_reuse_a', 2, ['G D', 'G CUR D', 'F F F'], hashes=[0, 0, 1]),
@@ -898,7 +903,7 @@ def seq_epoch_programs(n_prog, seed, workers=3, steps=28, max_forwards=2600):
                         emit(w, 'RL D' if rnd.random() < 0.5 else 'D')
                         has[w] = False
                     else:
-                        emit(w, rnd.choice(('RL', 'CUR', 'MIN')))
+                        emit(w, rnd.choice(('RL', 'CUR', 'MIN', 'MV')))
                 else:
                     emit(w, rnd.choice(('G', 'GL', 'GL RL')))
                     has[w] = True
@@ -1328,6 +1333,20 @@ def add_level2_epoch(res, prop, tier, seed, group):
         log(msg)
         notes.append(msg)
         return
+    ec = level2.epoch_conformance(tier, seed)
+    entry['conformance'] = {k: ec.get(k) for k in ('ok', 'streams', 'executions', 'events', 'states', 'rejected', 'skipped', 'capacities')}
+    entry['conformance_sample'] = ec.get('sample')
+    cov['states'] += ec.get('states', 0)
+    cov['transitions'] += ec.get('transitions', 0)
+    cov['traces_validated_against_impl'] += ec.get('executions', 0)
+    if not ec.get('ok'):
+        first = (ec.get('rejected') or [{}])[0]
+        msg = ('MODEL-DRIFT property=%s: the real code no longer follows EpochImpl step for step (program %s, event #%s %s); the '
+               'exhaustive Level-2 result is void, the verdict rests on the explored real executions'
+               % (prop, first.get('program'), first.get('line'), first.get('event')))
+        log(msg)
+        notes.append(msg)
+        return
     for r in level2.epoch_model_check(group, tier, order):
         entry['model_checking'].append({k: r[k] for k in ('tag', 'ok', 'violated', 'states', 'transitions', 'wall', 'invariants',
                                                            'properties', 'constraint', 'consts', 'cex_overlapped_forwards')})
@@ -1354,9 +1373,10 @@ def wrap_l2_epoch(prop, group):
         res = inner(prop_, tier, seed)
         add_level2_epoch(res, prop_, tier, seed, group)
         res['assumptions'] = list(res.get('assumptions', [])) + [
-            'Level 2: EpochImpl (list-node capacity 2, 1-3 workers, 3-6 forwards, thread exit and ID reuse) is model-checked with the '
-            'thread-exit order observed in the running code; its binding to the code is through that parameter and through the '
-            'API-level trace validation above (no step-level conformance for the epoch manager)']
+            'Level 2: EpochImpl (list-node capacity 2, 1-3 workers, 3-7 forwards, thread exit and ID reuse) is model-checked with the '
+            'thread-exit order observed in the running code; it is bound to the code by step-for-step trace validation '
+            '(EpochImplTrace, node capacity 256): every atomic operation, hook point, node allocation/retirement and exit step of '
+            'the explored real executions must be the enabled action with the same slot, node and value']
         return res
     REGISTRY[prop] = check
 
@@ -1364,3 +1384,4 @@ def wrap_l2_epoch(prop, group):
 wrap_l2_epoch('C04', 'pin')
 wrap_l2_epoch('C16', 'mono')
 wrap_l2_epoch('C17', 'list')
+wrap_l2_epoch('C20', 'seq')
